@@ -91,6 +91,8 @@ type Ctx struct {
 	NoSlice    bool
 	mu         sync.Mutex
 	defined    map[string]string
+	roots      map[string]bool
+	rootMemo   map[string]map[string]bool
 	origin     map[string]string // heap array symbol -> heap key (type|path)
 	dataMemo   map[string]map[string]bool
 	sxMemo     map[string]*sx
@@ -568,6 +570,110 @@ func (c *Ctx) LiteralsOf(t Term) []string {
 	}
 	walk(t.S, 0)
 	return out
+}
+
+// ---- reference roots -----------------------------------------------------
+//
+// AddRoot registers the name of a term that denotes a freshly allocated object.
+// RootsIn lists the registered roots a term's VALUE may be (or contain): it looks
+// through definitions; the index of a select / store and the condition of an ite
+// select a value but are not part of it; boolean-valued operators carry no
+// reference; allocation frontiers (ctr / sctr chains) are not followed (a later
+// frontier is computed from an earlier one but denotes a different object).
+func (c *Ctx) AddRoot(name string) {
+	c.mu.Lock()
+	defer c.mu.Unlock()
+	if c.roots == nil {
+		c.roots = map[string]bool{}
+	}
+	if !c.roots[name] {
+		c.roots[name] = true
+		c.rootMemo = nil
+	}
+}
+
+var boolHeads = map[string]bool{"=": true, "distinct": true, "and": true, "or": true, "not": true, "=>": true, "xor": true,
+	"bvult": true, "bvule": true, "bvugt": true, "bvuge": true, "bvslt": true, "bvsle": true, "bvsgt": true, "bvsge": true}
+
+func (c *Ctx) RootsIn(t Term) map[string]bool {
+	out := map[string]bool{}
+	if len(c.roots) == 0 || t.S == "" {
+		return out
+	}
+	c.mu.Lock()
+	defer c.mu.Unlock()
+	c.index()
+	if c.rootMemo == nil {
+		c.rootMemo = map[string]map[string]bool{}
+	}
+	toks := sexpTokens(t.S)
+	i := 0
+	for i < len(toks) {
+		var n *sx
+		n, i = parseSx(toks, i)
+		c.rootsOf(n, out, 0)
+	}
+	return out
+}
+
+func (c *Ctx) rootsOf(n *sx, out map[string]bool, depth int) {
+	if n == nil || depth > 4000 {
+		return
+	}
+	if n.list == nil {
+		tok := n.atom
+		if tok == "" || tok[0] == '#' || (tok[0] >= '0' && tok[0] <= '9') {
+			return
+		}
+		if c.roots[tok] {
+			out[tok] = true
+			return
+		}
+		idx, ok := c.byName[tok]
+		if !ok || !c.info[idx].isDef {
+			return
+		}
+		if strings.HasPrefix(tok, "ctr!") || strings.HasPrefix(tok, "sctr!") {
+			return
+		}
+		if m, ok := c.rootMemo[tok]; ok {
+			for s := range m {
+				out[s] = true
+			}
+			return
+		}
+		c.rootMemo[tok] = map[string]bool{}
+		m := map[string]bool{}
+		c.rootsOf(c.bodyOf(tok), m, depth+1)
+		c.rootMemo[tok] = m
+		for s := range m {
+			out[s] = true
+		}
+		return
+	}
+	h := n.head()
+	switch {
+	case h == "_" || h == "as" || boolHeads[h]:
+		return
+	case h == "ite" && len(n.list) == 4:
+		c.rootsOf(n.list[2], out, depth+1)
+		c.rootsOf(n.list[3], out, depth+1)
+		return
+	case h == "select" && len(n.list) == 3:
+		c.rootsOf(n.list[1], out, depth+1)
+		return
+	case h == "store" && len(n.list) == 4:
+		c.rootsOf(n.list[1], out, depth+1)
+		c.rootsOf(n.list[3], out, depth+1)
+		return
+	}
+	start := 0
+	if h != "" {
+		start = 1
+	}
+	for _, ch := range n.list[start:] {
+		c.rootsOf(ch, out, depth+1)
+	}
 }
 
 // DataSymbols: the free symbols the terms depend on through data positions only:
